@@ -8,32 +8,34 @@
    an operation is a line no action of this specification can consume. *)
 EXTENDS ConstTimeOps, TLC, Json, IOUtils
 Tr == ndJsonDeserialize(IOEnv.TRACE)
-VARIABLES l, cur, done, alive, aes, ran
-tvars == <<l, cur, done, alive, aes, ran>>
+VARIABLES l, cur, done, alive, aes, cnt
+tvars == <<l, cur, done, alive, aes, cnt>>
 Ev == Tr[l]
 IsEvent(e) == l <= Len(Tr) /\ Tr[l].e = e /\ l' = l + 1
 
-TraceInit == l = 1 /\ cur = "none" /\ done = {} /\ alive = {} /\ aes = FALSE /\ ran = {}
-Lens == {Tr[1].lens[k] : k \in 1..Len(Tr[1].lens)}
-TBegin == IsEvent("begin") /\ l = 1 /\ Ev.valgrind = 1 /\ aes' = (Ev.aes = 1) /\ UNCHANGED <<cur, done, alive, ran>>
+TraceInit == l = 1 /\ cur = "none" /\ done = {} /\ alive = {} /\ aes = FALSE /\ cnt = [o \in OpNames \cup DOMAIN SelfChecks |-> 0]
+LensSeq == Tr[1].lens      \* the lengths the driver was asked to run, in order
+TBegin == IsEvent("begin") /\ l = 1 /\ Ev.valgrind = 1 /\ aes' = (Ev.aes = 1) /\ UNCHANGED <<cur, done, alive, cnt>>
 TOp == /\ IsEvent("op") /\ cur = "none" /\ l > 1
        /\ Ev.op \in OpNames \cup DOMAIN SelfChecks
-       /\ cur' = Ev.op /\ ran' = ran \cup {<<Ev.op, Ev.len>>} /\ UNCHANGED <<done, alive, aes>>
+       \* an operation with a length argument runs through the requested lengths in order, each exactly once
+       /\ (Ev.op \in OpNames /\ OpOf(Ev.op).len) => (cnt[Ev.op] < Len(LensSeq) /\ Ev.len = LensSeq[cnt[Ev.op] + 1])
+       /\ cur' = Ev.op /\ cnt' = [cnt EXCEPT ![Ev.op] = @ + 1] /\ UNCHANGED <<done, alive, aes>>
 TReport == /\ IsEvent("report") /\ cur # "none"
            /\ IF cur \in DOMAIN SelfChecks
                 THEN alive' = (IF Ev.kind = SelfChecks[cur] THEN alive \cup {cur} ELSE alive)
                 ELSE ReportAllowed(cur, Ev.kind, Ev.fn, Ev.frames) /\ alive' = alive
-           /\ UNCHANGED <<cur, done, aes, ran>>
+           /\ UNCHANGED <<cur, done, aes, cnt>>
 TEnd == /\ IsEvent("end") /\ cur = Ev.op
-        /\ cur' = "none" /\ done' = done \cup {cur} /\ UNCHANGED <<alive, aes, ran>>
+        /\ cur' = "none" /\ done' = done \cup {cur} /\ UNCHANGED <<alive, aes, cnt>>
 TSkip == /\ IsEvent("skip") /\ cur = "none" /\ Ev.op \in NeedsAes /\ ~aes
-         /\ done' = done \cup {Ev.op} /\ UNCHANGED <<cur, alive, aes, ran>>
+         /\ done' = done \cup {Ev.op} /\ UNCHANGED <<cur, alive, aes, cnt>>
 \* the run is complete: everything in the table ran and the monitor reported both self-checks
 TDone == /\ IsEvent("done") /\ cur = "none"
          /\ OpNames \subseteq done
          /\ alive = DOMAIN SelfChecks
-         /\ \A o \in Ops : (o.len /\ (aes \/ o.op \notin NeedsAes)) => \A n \in Lens : <<o.op, n>> \in ran
-         /\ UNCHANGED <<cur, done, alive, aes, ran>>
+         /\ \A o \in Ops : (aes \/ o.op \notin NeedsAes) => cnt[o.op] = (IF o.len THEN Len(LensSeq) ELSE 1)
+         /\ UNCHANGED <<cur, done, alive, aes, cnt>>
 TraceNext == TBegin \/ TOp \/ TReport \/ TEnd \/ TSkip \/ TDone
 TraceSpec == TraceInit /\ [][TraceNext]_tvars
 TraceAccepted ==
